@@ -21,6 +21,7 @@ require (
 	golang.org/x/sync v0.3.0 // indirect
 	golang.org/x/sys v0.1.0 // indirect
 	gopkg.in/yaml.v3 v3.0.1 // indirect
+	vsched v0.0.0
 )
 
 replace github.com/compose-spec/compose-go/v2 => /repo
